@@ -351,6 +351,22 @@ pub fn gen_layout(r: &mut Rng, max_entries: u64, max_content: u64, with_enc: boo
         if sw_gap && r.chance(1, 3) {
             e.gap_before = r.below(40) as u32;
         }
+        if r.chance(1, 60) {
+            // long name and/or large local extra: the local header's variable part may exceed 64 KiB
+            let nl = r.pickc(&[255usize, 30000, 40000, 65535]);
+            e.name = Hex(vec![b'L'; nl]);
+            e.utf8 = false;
+            let el = r.pickc(&[0usize, 100, 30000, 65531 - 4]);
+            if el > 0 {
+                let mut x = 0xbeefu16.to_le_bytes().to_vec();
+                x.extend_from_slice(&(el as u16).to_le_bytes());
+                x.extend_from_slice(&vec![0x11u8; el]);
+                e.extra_local = Hex(x);
+            }
+        }
+        if matches!(e.method, 8 | 12) && r.chance(1, 25) {
+            e.trailing_pad = r.pickc(&[1u32, 10, 300, 40_000]);
+        }
         if with_enc && r.chance(1, 3) {
             e.enc = Some(if r.chance(1, 2) {
                 Enc::ZipCrypto { pw: Hex(r.rbytes(0, 8)), infozip: r.chance(1, 2) }
@@ -444,6 +460,8 @@ pub fn shrink_layout(l: &Layout) -> Vec<Layout> {
             Box::new(|e| e.gap_before = 0),
             Box::new(|e| e.enc = None),
             Box::new(|e| e.stored_blocks = None),
+            Box::new(|e| e.trailing_pad = 0),
+            Box::new(|e| e.central_name = None),
             Box::new(|e| e.name = Hex(b"a".to_vec())),
             Box::new(|e| e.eattr = 0o100644 << 16),
             Box::new(|e| e.sys = 3),
